@@ -384,7 +384,8 @@ fn round_decimal(value: &[u8]) -> Result<i128, lexical_core::Error> {
                 if !c.is_ascii_digit() {
                     return Err(lexical_core::Error::InvalidDigit(pos + 1 + i));
                 }
-                e = (e * 10 + (c - b'0') as i64).min(1_000_000);
+                // Saturate far above the length of any literal which could be in memory
+                e = (e * 10 + (c - b'0') as i64).min(100_000_000_000_000_000);
             }
             (&unsigned[..pos], if exp_negative { -e } else { e })
         }
